@@ -160,10 +160,20 @@ def run_world(facts, rep, w, floors):
             if b is None:
                 continue
             offenders = []
-            for cb in inter.code_bodies(b):
-                for s in inter.sites(cb):
-                    if s.name in MUTATING and (s.trait == w.trait or (s.self_ty or "") == ty):
-                        offenders.append((s.name, s.line))
+            todo6, seen6 = [b], {b.id}
+            while todo6:
+                f6 = todo6.pop()
+                for cb in inter.code_bodies(f6):
+                    for s in inter.sites(cb):
+                        if (s.name in MUTATING or s.name in ("create_dir_all", "remove_dir_all", "copy_dir")) and \
+                                (s.trait == w.trait or (s.self_ty or "") == ty or (s.self_ty or "").endswith("VfsPath")):
+                            offenders.append((s.name, s.line))
+                        # private helpers of the backend (the path translator of an adapter) run as part of the observer
+                        hb6 = inter.local_callee(s)
+                        if hb6 is not None and hb6.id not in seen6 and hb6.impl and hb6.impl.get("self_ty") == ty and \
+                                not hb6.impl.get("trait") and hb6.vis != "pub":
+                            seen6.add(hb6.id)
+                            todo6.append(hb6)
             if ty == w.memory:
                 # direct writes to the map behind the lock count as well (an inlined access-time bump)
                 from ..memrules import MemoryModel
